@@ -7,8 +7,9 @@
    send/receive/range, sleep, thread wait), callback-carrying builtins (each/map/filter/sorted/call/try),
    spawns and script calls, nested to any depth.  Actions: cancel the context, let the watcher goroutine run,
    step thread i (one poll + instruction, one callback dispatch, one frame of unwinding, or one wake-up from a
-   select).  [run shares sched c] applies a schedule; shares = true is the code as it is (Clone() copies the
-   pointer to the run's halt flag), shares = false the code before b731f6b. *)
+   select).  [run k sched c] applies a schedule under the code variant k: k_current is the code as it is; k_noclone,
+   k_textual, k_tryrecovers, k_wakesilent are the code without b731f6b, without 644b857+dafa602, without ee030a3 and
+   without b9a89d8 (regression witnesses only). *)
 From Coq Require Import List Bool Arith Lia.
 Require Import RV.model.VmConc RV.proofs.VmConcProofs.
 Import ListNotations.
@@ -17,15 +18,15 @@ Import ListNotations.
    evaluation itself, callbacks (they run on the same thread), and every clone started by go/spawn at any
    nesting depth - polls the run's halt flag; and that flag is set only after the context was cancelled. *)
 Theorem C06_inv : forall (s : shape) (sched : list action),
-  let c := run true sched (init s) in
+  let c := run k_current sched (init s) in
   Forall (fun t => tshare t = true) (threads c) /\ (flag c = true -> cancelled c = true).
 Proof. exact governed_reachable. Qed.
 
 (* One step of a governed thread after the watcher's step: it is never blocked, executes no tick(), starts no
    thread, and its remaining-steps bound strictly decreases. *)
-Theorem C06_progress_step : forall (shares : bool) (c : cstate) (t : thread),
+Theorem C06_progress_step : forall (k : ccfg) (c : cstate) (t : thread),
   cancelled c = true -> flag c = true -> tshare t = true -> tdone t = None ->
-  let o := step_thread shares c t in
+  let o := step_thread k c t in
   steps_left (o_thread o) < steps_left t /\ o_tick o = false /\ o_spawn o = None /\ o_mark o = false /\
   enabled c t = true.
 Proof. exact step_progress. Qed.
@@ -33,9 +34,9 @@ Proof. exact step_progress. Qed.
 (* C06_progress (bounded response): after the watcher's step, under EVERY schedule, no tick is added, no thread
    appears, and thread i has finished once it was given steps_left t of its own steps - a bound that depends only
    on the depth of its control stack (3 per frame, 3 per pending callback of a builtin), not on any loop. *)
-Theorem C06_progress : forall (shares : bool) (sched : list action) (c : cstate) (i : nat) (t : thread),
+Theorem C06_progress : forall (k : ccfg) (sched : list action) (c : cstate) (i : nat) (t : thread),
   halted c -> nth_error (threads c) i = Some t ->
-  let c' := run shares sched c in
+  let c' := run k sched c in
   halted c' /\ ticks c' = ticks c /\ length (threads c') = length (threads c) /\
   (steps_left t <= count_steps i sched ->
    exists t', nth_error (threads c') i = Some t' /\ tdone t' <> None).
@@ -44,65 +45,86 @@ Proof. exact bounded_response. Qed.
 (* Fairness is the stated hypothesis: under every fair infinite schedule, from the watcher's step on a point is
    reached after which every thread of the evaluation is finished (Eval has returned, nothing it started runs),
    and the tick counter never moves again. *)
-Theorem C06_all_stop : forall (shares : bool) (f : nat -> action) (c : cstate),
+Theorem C06_all_stop : forall (k : ccfg) (f : nat -> action) (c : cstate),
   halted c -> fair f ->
-  (exists n, forall m, n <= m -> all_done (run shares (prefix f m) c) = true) /\
-  (forall m, ticks (run shares (prefix f m) c) = ticks c).
+  (exists n, forall m, n <= m -> all_done (run k (prefix f m) c) = true) /\
+  (forall m, ticks (run k (prefix f m) c) = ticks c).
 Proof. exact halted_all_stop. Qed.
 
 (* From the cancellation itself: in any reachable state in which the context is cancelled, a fair schedule lets
    the watcher run (n0 steps), and then the above holds. *)
 Theorem C06_cancel_to_quiescence : forall (s : shape) (sched : list action) (f : nat -> action),
-  let c := run true sched (init s) in
+  let c := run k_current sched (init s) in
   cancelled c = true -> fair f ->
-  exists n0, (exists n, forall m, n <= m -> all_done (run true (prefix f (n0 + m)) c) = true) /\
-             (forall m, ticks (run true (prefix f (n0 + m)) c) = ticks (run true (prefix f n0) c)).
+  exists n0, (exists n, forall m, n <= m -> all_done (run k_current (prefix f (n0 + m)) c) = true) /\
+             (forall m, ticks (run k_current (prefix f (n0 + m)) c) = ticks (run k_current (prefix f n0) c)).
 Proof. exact cancelled_all_stop. Qed.
 
-(* Which error comes back.  Guarded statement (G = idclean: the program uses neither thread.wait nor a callback
-   builtin other than try): every error any thread unwinds with or ends with is the context's own error. *)
-Theorem C06_error_identity_guarded : forall (shares : bool) (s : shape) (sched : list action),
-  idclean s = true ->
-  let c := run shares sched (init s) in
+(* Which error comes back: for EVERY program, in every reachable state under every schedule, every error a thread
+   is unwinding with or has ended with is the context's own error (errors.Is(err, ctx.Err())). *)
+Theorem C06_error_identity : forall (s : shape) (sched : list action),
+  let c := run k_current sched (init s) in
   forall t, In t (threads c) ->
     (forall e, tmode t = Unwind e -> e = ECtx) /\ (forall e, tdone t = Some (TErr e) -> e = ECtx).
-Proof. exact clean_error_identity. Qed.
+Proof. exact (fun s sched => error_identity k_current s sched eq_refl). Qed.
 
-(* ------------------------------------------------------------------ the full statement about the returned error is false *)
+(* A cancellation that reached a thread is not swallowed: once the context is cancelled, a thread that is unwinding
+   (or whose sorted() holds an error for the end) stays so, step after step, until it ends with an error - try()
+   does not turn it back into normal execution. *)
+Theorem C06_cancellation_not_swallowed : forall (c : cstate) (t : thread),
+  cancelled c = true -> tdone t = None -> failing t = true ->
+  let t' := o_thread (step_thread k_current c t) in
+  failing t' = true \/ exists e, tdone t' = Some (TErr e).
+Proof. exact (fun c t => step_failing k_current c t eq_refl). Qed.
+
+(* Every blocking primitive that the cancellation wakes reports it: channel send/receive/range, sleep, wait. *)
+Theorem C06_wake_reports : forall (t : thread) (b : blk), wake k_current t b = unwind t ECtx.
+Proof. exact (fun t b => wake_reports_ctx k_current t b eq_refl eq_refl). Qed.
+
+(* ------------------------------------------------------------------ regression: the code without each error repair *)
 Definition after_cancel (pre : list action) : list action := pre ++ [ACancel; AFire] ++ repeat (AStep 0) 30.
-Definition returns (s : shape) (sched : list action) (r : tres) : Prop :=
-  let c := run true sched (init s) in cancelled c = true /\ flag c = true /\ main_result c = Some r.
+Definition returns (k : ccfg) (s : shape) (sched : list action) (r : tres) : Prop :=
+  let c := run k sched (init s) in cancelled c = true /\ flag c = true /\ main_result c = Some r.
 
-(* [1,2,3].each(func(x) { for { tick() } }) cancelled inside the callback: Errorf(err.Error()) *)
-Theorem C06_refuted_callback_error_text : exists s sched, returns s sched (TErr ECtxText).
-Proof. exists (Callback CbEach 3 (Forever Tick)), (after_cancel (repeat (AStep 0) 5)). vm_compute. auto. Qed.
-(* t := spawn(...); t.wait() cancelled while waiting: "wait error: context canceled" *)
-Theorem C06_refuted_wait_error_text : exists s sched, returns s sched (TErr EWait).
-Proof.
-  exists (Seq (Spawn (Block BRecv)) (Block BWait)), (after_cancel [AStep 0; AStep 0; AStep 0; AStep 0; AStep 1]).
-  vm_compute. auto.
-Qed.
-(* try(func() { for { tick() } }) as the last expression: the cancellation is swallowed, Eval returns nil, nil *)
-Theorem C06_refuted_try_swallows : exists s sched, returns s sched TOk.
-Proof. exists (Callback CbTry 0 (Forever Tick)), (after_cancel (repeat (AStep 0) 5)). vm_compute. auto. Qed.
-(* for x := range c { } ; tick() : the loop over a channel nobody closes ends silently when the context is done,
-   and the code after it completes before the watcher has run *)
-Theorem C06_refuted_wakes_silently : exists s sched,
-  let c := run true sched (init s) in cancelled c = true /\ main_result c = Some TOk /\ 0 < ticks c.
-Proof.
-  exists (Seq (Block BNext) Tick), ([AStep 0; AStep 0; ACancel] ++ repeat (AStep 0) 6 ++ [AFire]).
-  vm_compute. auto.
-Qed.
+(* without 644b857: [1,2,3].each(func(x) { for { tick() } }) cancelled inside the callback: Errorf(err.Error()) *)
+Definition p_each := Callback CbEach 3 (Forever Tick).
+Theorem C06_textual_refuted_callback_error : exists s sched, returns k_textual s sched (TErr ECtxText).
+Proof. exists p_each, (after_cancel (repeat (AStep 0) 5)). vm_compute. auto. Qed.
+Example C06_callback_error_repaired : returns k_current p_each (after_cancel (repeat (AStep 0) 5)) (TErr ECtx).
+Proof. vm_compute. auto. Qed.
+(* without dafa602: t := spawn(...); t.wait() cancelled while waiting: "wait error: context canceled" *)
+Definition p_wait := Seq (Spawn (Block BRecv)) (Block BWait).
+Definition s_wait := after_cancel [AStep 0; AStep 0; AStep 0; AStep 0; AStep 1].
+Theorem C06_textual_refuted_wait_error : exists s sched, returns k_textual s sched (TErr EWait).
+Proof. exists p_wait, s_wait. vm_compute. auto. Qed.
+Example C06_wait_error_repaired : returns k_current p_wait s_wait (TErr ECtx).
+Proof. vm_compute. auto. Qed.
+(* without ee030a3: try(func() { for { tick() } }) as the last expression: the cancellation is swallowed, nil, nil *)
+Definition p_try := Callback CbTry 1 (Forever Tick).
+Theorem C06_tryrecovers_refuted : exists s sched, returns k_tryrecovers s sched TOk.
+Proof. exists p_try, (after_cancel (repeat (AStep 0) 5)). vm_compute. auto. Qed.
+Example C06_try_repaired : returns k_current p_try (after_cancel (repeat (AStep 0) 5)) (TErr ECtx).
+Proof. vm_compute. auto. Qed.
+(* without b9a89d8: for x := range c { } ; tick() - the loop over a channel nobody closes ends silently when the
+   context is done, and the code after it completes before the watcher has run *)
+Definition p_range := Seq (Block BNext) Tick.
+Definition s_range := [AStep 0; AStep 0; ACancel] ++ repeat (AStep 0) 6 ++ [AFire].
+Theorem C06_wakesilent_refuted : exists s sched,
+  let c := run k_wakesilent sched (init s) in cancelled c = true /\ main_result c = Some TOk /\ 0 < ticks c.
+Proof. exists p_range, s_range. vm_compute. auto. Qed.
+Example C06_wake_repaired :
+  let c := run k_current s_range (init p_range) in main_result c = Some (TErr ECtx) /\ ticks c = 0.
+Proof. vm_compute. auto. Qed.
 
-(* ------------------------------------------------------------------ regression: the code before b731f6b *)
+(* ------------------------------------------------------------------ regression: the code without b731f6b *)
 Theorem C06_noclone_refuted_spawned_loop : exists s sched,
-  let c := run false sched (init s) in
+  let c := run k_noclone sched (init s) in
   cancelled c = true /\ flag c = true /\ main_result c = Some (TErr ECtx) /\
-  forall n, let c' := run false (concat (repeat [AStep 1; AStep 1] n)) c in
+  forall n, let c' := run k_noclone (concat (repeat [AStep 1; AStep 1] n)) c in
             ticks c' = n + ticks c /\ all_done c' = false.
 Proof. exact noclone_spawned_loop_survives. Qed.
 Example C06_spawned_loop_repaired :
-  all_done (run true (sched_spawn_loop ++ [AStep 1; AStep 1; AStep 1; AStep 1]) (init prog_spawn_loop)) = true.
+  all_done (run k_current (sched_spawn_loop ++ [AStep 1; AStep 1; AStep 1; AStep 1]) (init prog_spawn_loop)) = true.
 Proof. exact spawn_loop_now_stops. Qed.
 
 (* ------------------------------------------------------------------ non-vacuity and the explorer *)
@@ -114,17 +136,15 @@ Definition nested3 : shape :=
 Definition sched3 : list action :=
   repeat (AStep 0) 3 ++ repeat (AStep 1) 3 ++ repeat (AStep 2) 4 ++ repeat (AStep 3) 2 ++ [ACancel; AFire].
 Example C06_halted_satisfiable :
-  let c := run true sched3 (init nested3) in
+  let c := run k_current sched3 (init nested3) in
   cancelled c = true /\ flag c = true /\ forallb tshare (threads c) = true /\ length (threads c) = 4 /\
   all_done c = false /\
-  all_done (run true (concat (repeat [AStep 0; AStep 1; AStep 2; AStep 3] 16)) c) = true.
+  all_done (run k_current (concat (repeat [AStep 0; AStep 1; AStep 2; AStep 3] 16)) c) = true.
 Proof. vm_compute. repeat split. Qed.
-Example C06_idclean_satisfiable : idclean (Seq (Spawn (Forever Tick)) (Seq (Callback CbTry 1 (Block BSleep)) (Forever (Block BRecv)))) = true.
-Proof. reflexivity. Qed.
 (* the explorer (all schedules of a concrete program, used by the correspondence): a spawned loop under the code
    as it is and before the repair *)
-Example C06_explorer_now : let v := analyse true IMarked (Seq (Spawn (Forever Tick)) (Seq Mark (Forever Skip))) in
+Example C06_explorer_now : let v := analyse k_current IMarked (Seq (Spawn (Forever Tick)) (Seq Mark (Forever Skip))) in
   v_complete v = true /\ v_stuck v = false /\ v_results v = [TErr ECtx].
 Proof. vm_compute. auto. Qed.
-Example C06_explorer_noclone : v_stuck (analyse false IMarked (Seq (Spawn (Forever Tick)) (Seq Mark (Forever Skip)))) = true.
+Example C06_explorer_noclone : v_stuck (analyse k_noclone IMarked (Seq (Spawn (Forever Tick)) (Seq Mark (Forever Skip)))) = true.
 Proof. vm_compute. auto. Qed.
